@@ -363,6 +363,15 @@ class ThreadProg:
             with contextlib.suppress(BaseException):
                 self.block(st[1])
             self.probe_hit("foreign_suppress_block")
+        elif op == "poke":
+            # foreign code inside a body changes the register itself (e.g. a C library that sets FTZ and does
+            # not put it back): whatever it leaves, the enclosing context's exit must restore the entry value
+            v = st[1]
+            self.obs.write(v)
+            self.model = v
+            self.stat("register_changed_by_body")
+            if self.depth >= 1:
+                self.probe_hit("register_changed_inside_a_context_body")
         elif op == "make":
             slot, spec = st[1], st[2]
             if slot not in self.active:
@@ -520,6 +529,8 @@ def gen_block(rng, kn, depth, budget):
             out.append(["flags", rng.choice(FLAG_KINDS)])
         elif r < kn["p_with"] + 0.26 + kn["p_raise"]:
             out.append(["raise", rng.choice(kn["excs"])])
+        elif r < kn["p_with"] + 0.29 + kn["p_raise"] and depth >= 1 and kn.get("poke"):
+            out.append(["poke", gen_init(rng, "arith")])
         elif r < kn["p_with"] + 0.36 + kn["p_raise"] and depth < kn["max_depth"]:
             catches = rng.sample(kn["excs"], rng.randint(1, len(kn["excs"])))
             out.append(["try", gen_block(rng, kn, depth, budget), catches])
@@ -567,6 +578,7 @@ def make_case(seed, tier="quick", nthreads=None, sweep=False):
         "p_with": kn_rng.choice([0.3, 0.45, 0.6]),
         "p_raise": kn_rng.choice([0.0, 0.05, 0.12, 0.2]),
         "slots": kn_rng.randint(1, 3),
+        "poke": mode == "arith" and kn_rng.random() < 0.4,
     }
     threads = []
     for t in range(nthreads):
@@ -928,7 +940,7 @@ def _nullify(block):
     """For calibration: contexts request nothing and the program does no arithmetic of its own (probes and
     flag-raising statements removed), so that any change of the register between two observations is
     noise of the interpreter / harness itself."""
-    block[:] = [st for st in block if st[0] not in ("probe", "flags")]
+    block[:] = [st for st in block if st[0] not in ("probe", "flags", "poke")]
     for st in block:
         if st[0] == "with":
             st[1].clear()
